@@ -785,6 +785,43 @@ def oracle_cleanup_exact(ck):
                      "basis_dir_cleanup(method='all') did not remove exactly the library's basis files")
 
 
+def oracle_cleanup_paths(ck):
+    """explicit basis directories whose names contain glob metacharacters: cleanup removes the named directory's files of that method
+    and nothing in sibling directories the name would match as a pattern; transforms through such a directory equal a plain one's"""
+    import abel, re, shutil
+    root = tempfile.mkdtemp(prefix="meta_", dir=os.environ.get("VERIF_SCRATCH"))
+    pairs = [("d[12]", "d1"), ("a*b", "axb"), ("q?x", "qax")]
+    owners = {"basex": "basex", "daun": "daun", "linbasex": "linbasex", "rbasex": "rbasex", "two_point": "dasch", "three_point": "dasch",
+              "onion_peeling": "dasch"}
+    for odd, plain in pairs:
+        dodd, dplain = os.path.join(root, odd), os.path.join(root, plain)
+        os.mkdir(dodd), os.mkdir(dplain)
+        for ad in ADAPTERS:
+            for key in ad.lattice[::4][:2]:
+                ad.cache_cleanup()
+                a = ad.call(key, dplain)
+                ad.cache_cleanup()
+                b = ad.call(key, dodd)
+                ad.cache_cleanup()
+                c = ad.call(key, dodd)             # now from whatever the lookup finds
+                ck.count(("S.paths", ad.name, odd), suite="S.cleanup-paths")
+                for got in (b, c):
+                    if a[0] != got[0] or (a[0] == "ok" and not same_result(a[1], got[1])):
+                        ck.violation(dict(site=ad.name, clause="metachar-basis-dir-result"), dict(module=ad.name, key=repr(key), dir=odd),
+                                     f"{ad.name}: basis through directory {odd!r} differs from the one through {plain!r} for {key!r}")
+        for m in owners:
+            bo, bp = set(os.listdir(dodd)), set(os.listdir(dplain))
+            quiet(abel.transform.basis_dir_cleanup, dodd, m)
+            ao, ap = set(os.listdir(dodd)), set(os.listdir(dplain))
+            want = {f for f in bo if re.fullmatch(m + r"_basis_.*\.npy", f)}
+            ck.count(("S.paths.cleanup", m, odd), suite="S.cleanup-paths")
+            if bo - ao != want or ap != bp:
+                ck.violation(dict(site="basis_dir_cleanup", method=m, clause="metachar-basis-dir"),
+                             dict(method=m, dir=odd, removed=sorted(bo - ao), expected=sorted(want), sibling_removed=sorted(bp - ap)),
+                             f"basis_dir_cleanup({odd!r}, {m}) removed {sorted(bo - ao)} (expected {sorted(want)}) and {sorted(bp - ap)} from sibling {plain!r}")
+    shutil.rmtree(root, ignore_errors=True)
+
+
 def regenerate_names(ck):
     p = subprocess.run(["/venv/bin/python", str(VERIF / "harness" / "gen_tables.py")], capture_output=True, text=True)
     if p.returncode != 0:
@@ -828,6 +865,7 @@ def run(tier):
     oracle_sequences(ck, tier)
     oracle_transform(ck, tier, deep or bool(ck.broken))
     oracle_cleanup_exact(ck)
+    oracle_cleanup_paths(ck)
     oracle_failed_saves(ck, tier)
     oracle_refused_calls(ck, tier)
     from harness import rbxmachine
